@@ -10,7 +10,8 @@ PROP=$(jq -r .property "$D/meta.json")
 WT=/tmp/seed-$ID
 git -C /repo worktree remove --force "$WT" >/dev/null 2>&1
 git -C /repo worktree add -q "$WT" HEAD || exit 3
-if ! git -C "$WT" apply "$D/patch.diff"; then echo "SEEDED $ID property=$PROP patch-does-not-apply"; git -C /repo worktree remove --force "$WT"; exit 3; fi
+P=$D/patch.diff; [ -f "$D/patch.rebased.diff" ] && P=$D/patch.rebased.diff
+if ! git -C "$WT" apply "$P"; then echo "SEEDED $ID property=$PROP patch-does-not-apply"; git -C /repo worktree remove --force "$WT"; exit 3; fi
 cd "$ROOT"
 OUT=$(VERIF_REPO=$WT ./check "$PROP" --tier "$TIER" 2>&1); rc=$?
 echo "$OUT" | grep -E '^(VIOLATION|INCONCLUSIVE|RESULT|  signature)' | head -8
